@@ -94,10 +94,12 @@ func exec(rw bool) func(script []string, opt comp.Options) comp.Result {
 						log.Ret(c.id, "lock canceled")
 						return
 					}
+					// publish the release function only after the return is logged, so that a
+					// release can never be logged before the return it belongs to
+					log.Ret(c.id, "lock ok %s", ms)
 					c.mu.Lock()
 					c.rel = rel
 					c.mu.Unlock()
-					log.Ret(c.id, "lock ok %s", ms)
 				}()
 			case "trylock":
 				w, ms := mode(f[1])
@@ -106,12 +108,10 @@ func exec(rw bool) func(script []string, opt comp.Options) comp.Result {
 				calls = append(calls, c)
 				rel, ok := trylock(w)
 				if ok {
+					log.Ret(c.id, "trylock true %s", ms)
 					c.mu.Lock()
 					c.rel = rel
 					c.mu.Unlock()
-				}
-				if ok {
-					log.Ret(c.id, "trylock true %s", ms)
 				} else {
 					log.Ret(c.id, "trylock false")
 				}
